@@ -35,6 +35,10 @@ FIXED = [
     ("chain", 2, (3, 5, 4, 6, 7), ("base",)),
     ("chain", 3, (1, 3, 2, 4), ("base",)),
     ("off", 9, 1, ("chain", 2, (2, 4, 3, 5, 6), ("base",))),
+    # long back-and-forth chains read in one call (read coalescing must follow the chain, not the sector numbers)
+    ("chain", 2, (2, 3, 6, 5, 4, 7), ("base",)),
+    ("chain", 2, (1, 5, 2, 6, 3, 7, 4, 8), ("base",)),
+    ("chain", 1, (9, 8, 7, 6, 5, 4, 3, 2), ("base",)),
 ]
 
 
@@ -91,6 +95,18 @@ def check_batch(ctx, spec, content, cursor, seqs, use_file=False, tmpdir=None):
             ctx.require("view behaves as a read-only file over its logical content", case,
                         VW.ref_agrees(ref, got), {"expected": ref, "got": got, "logical": list(L[:64])})
         # confinement: every returned byte is a byte of the logical content (values are unique)
+        if not inner and not use_file and len(ops) >= 2:
+            # the owner of the underlying file moves its cursor between two operations of the view
+            base2 = io.BytesIO(content)
+            base2.seek(cursor)
+            st2 = VW.build(spec, base2)
+            got2 = []
+            for k, o in enumerate(ops):
+                got2 += VW.run_impl(st2, [o])
+                base2.seek((7 * k + 3) % (len(content) + 1))
+            ref = VW.run_ref(L, ops, rw)
+            ctx.require("view behaves as a read-only file over its logical content (underlying file cursor moved between operations)",
+                        dict(case, perturbed=True), VW.ref_agrees(ref, got2), {"expected": ref, "got": got2})
     return
 
 
